@@ -18,6 +18,20 @@ def assigned_names(stmts):
     return out
 
 
+def _consts_of(t):
+    """ids of the uninterpreted constants (incl. array constants) occurring in a term"""
+    out, todo, seen = set(), [t], set()
+    while todo:
+        x = todo.pop()
+        if x.get_id() in seen:
+            continue
+        seen.add(x.get_id())
+        if z3.is_const(x) and x.decl().kind() == z3.Z3_OP_UNINTERPRETED:
+            out.add(x.get_id())
+        todo.extend(x.children())
+    return out
+
+
 class IterDesc:
     """Abstract iteration protocol: length(state) and element(state, k)."""
 
@@ -72,7 +86,30 @@ class LoopMixin:
                 return IterDesc(length, elem)
             if fn == "reversed" and fn not in st.env and len(it_node.args) == 1:
                 sub = self.iter_desc(it_node.args[0], st)
-                return IterDesc(sub.length, lambda s, k, sub=sub: sub.elem(s, sub.length(s) - 1 - k))
+                # position k of the reversed sequence is position rev(k) = n-1-k of the sequence; rev is its own inverse.
+                # (a named function instead of the arithmetic term keeps quantifier triggers usable in both directions)
+                rev = fresh_fn("rev", I, I)
+                n0 = sub.length(st)
+                k0 = fresh("rv", I)
+                st.assume(z3.ForAll([k0], z3.And(rev(k0) == n0 - 1 - k0, rev(rev(k0)) == k0), patterns=[rev(k0)]))
+                # a read of the j-th element of the sequence itself brings its position in the reversed sequence into play
+                try:
+                    e0 = sub.elem(st, k0)
+                    terms = [x.t for x in (e0.t if isinstance(e0.t, (list, tuple)) else [e0])]
+                    sel = None
+                    for t0 in terms:
+                        while z3.is_expr(t0) and z3.is_app(t0) and t0.num_args() == 1 and not z3.is_select(t0):
+                            t0 = t0.arg(0)
+                        if z3.is_expr(t0) and z3.is_select(t0) and t0.arg(1).eq(k0):
+                            sel = t0
+                            break
+                    if sel is not None:
+                        st.assume(z3.ForAll([k0], rev(rev(k0)) == k0, patterns=[sel]))
+                except Exception:
+                    pass
+                d = IterDesc(sub.length, lambda s, k, sub=sub, rev=rev: sub.elem(s, rev(k)))
+                d.rev = rev
+                return d
             if fn == "list" and fn not in st.env and len(it_node.args) == 1 and isinstance(it_node.args[0], ast.Call):
                 # list(<iterable expression>): a snapshot of the sequence as it is now
                 sub = self.iter_desc(it_node.args[0], st)
@@ -316,6 +353,17 @@ class LoopMixin:
         # references held by locals that the loop never rebinds are loop-invariant terms
         stable_refs = [v.t for nm, v in st.env.items()
                        if nm not in body_names and nm != idx and (is_reflike(v.ty)) and z3.is_expr(v.t)]
+        tainted = set()
+        for k2 in mod_keys:
+            a2 = st.heap.get(k2, self.init_heap.get(k2))
+            if a2 is not None:
+                tainted |= _consts_of(a2)
+        for nm in body_names | ({idx} if is_for else set()):
+            v2 = st.env.get(nm)
+            if v2 is not None:
+                for t2 in (v2.t if isinstance(v2.t, (list, tuple)) else [v2.t]):
+                    if z3.is_expr(t2):
+                        tainted |= _consts_of(t2)
         by_key = {}
         closed_later = []
         for key, ref in self.last_dry_refs:
@@ -335,7 +383,9 @@ class LoopMixin:
                     for k2, a2 in list(st.heap.items()):
                         if k2 not in mod_keys and a2.eq(r.arg(0)):
                             return True
-                return False
+                # in general: a term built only from things the loop cannot change (no heap field the loop writes, no local
+                # the loop assigns), e.g. self.db[bucket_id]
+                return not (_consts_of(r) & tainted)
             is_fresh = lambda r: (isinstance(r, str) and r == "fresh") or (z3.is_expr(r) and self.allocated_after(r, st))
             if refs and key not in lc.get("modifies", []) and all(r is not None and (is_stable(r) or is_fresh(r)) for r in refs) \
                     and any(is_fresh(r) for r in refs):
